@@ -5,6 +5,9 @@ use crate::core::{SchedPlan, TimePlan};
 use crate::net::NetPlan;
 use serde::{Deserialize, Serialize};
 
+fn is_zero_i64(v: &i64) -> bool {
+    *v == 0
+}
 fn is_false(b: &bool) -> bool {
     !*b
 }
@@ -210,7 +213,7 @@ pub enum Op {
     AwaitCount { r: u32, n: usize, timeout_ms: u64 },
     // ---- hostile / foreign traffic
     Inject { dst_p: u32, port: u8, generator: InjectGen, #[serde(default)] delay_us: u64 },
-    ForeignSpdp { id: u32, dst_p: u32, domain: i32, #[serde(default, skip_serializing_if = "Option::is_none")] domain_in_msg: Option<i32>, #[serde(default, skip_serializing_if = "Option::is_none")] tag: Option<String>, lease_ms: u64, every_ms: u64, count: u32 },
+    ForeignSpdp { id: u32, dst_p: u32, domain: i32, #[serde(default, skip_serializing_if = "Option::is_none")] domain_in_msg: Option<i32>, #[serde(default, skip_serializing_if = "Option::is_none")] tag: Option<String>, lease_ms: u64, every_ms: u64, count: u32, #[serde(default, skip_serializing_if = "is_zero_i64")] sn0: i64 },
 }
 
 #[derive(Clone, Debug, Serialize, Deserialize, PartialEq)]
